@@ -42,6 +42,7 @@ func verifyFunction(prog *Program, cs *ContractSet, property string, fn *ssa.Fun
 		x.assume("true", x.typeInv(v, st))
 		fr.vals[p] = v
 		fr.params = append(fr.params, v)
+		x.assume("true", x.deepTypeInv(v, st, 0))
 	}
 	for _, fv := range fn.FreeVars {
 		v := x.freshVal("fv_"+fv.Name(), fv.Type())
@@ -351,12 +352,8 @@ func runCheck(prog *Program, cs *ContractSet, pd *PropertyDef, tier string, work
 				o.Result = SolverResult{Status: "unsat", Solver: "trivial"}
 				return
 			}
-			q := o.exec.query(o, false)
-			if len(q) > 4<<20 {
-				o.Result = SolverResult{Status: "unknown", Solver: "none", Output: fmt.Sprintf("query too large (%d bytes)", len(q))}
-				return
-			}
-			o.Result = solve(q, timeout, tier == "thorough" && os.Getenv("GVC_NOCROSS") == "", false)
+			cross := tier == "thorough" && os.Getenv("GVC_NOCROSS") == ""
+			o.Result = discharge(o, timeout, cross)
 		}(o)
 	}
 	wg.Wait()
@@ -521,4 +518,28 @@ func relPath(p string) string {
 		return p[i+6:]
 	}
 	return p
+}
+
+// deepTypeInv: type invariants of the fields reachable from a parameter through one or two
+// pointer-to-struct hops (entry state).
+func (x *Exec) deepTypeInv(v Val, st *State, depth int) string {
+	if depth > 1 || v.T == nil {
+		return "true"
+	}
+	p, ok := v.T.Underlying().(*types.Pointer)
+	if !ok {
+		return "true"
+	}
+	stt, ok := p.Elem().Underlying().(*types.Struct)
+	if !ok || isDensePtr(v.T) {
+		return "true"
+	}
+	sv := x.load(st, x.objAddr(p.Elem(), v.C[0]))
+	var cs []string
+	for i := 0; i < stt.NumFields(); i++ {
+		lo, hi := fieldRange(stt, i)
+		fv := Val{T: stt.Field(i).Type(), C: sv.C[lo:hi]}
+		cs = append(cs, x.typeInv(fv, st), x.deepTypeInv(fv, st, depth+1))
+	}
+	return implies(not(eq(v.C[0], "0")), and(cs...))
 }
